@@ -198,6 +198,20 @@ CLAIMED["C11"] = dict(
         "replicas). " + TRUST,
    design="DESIGN.md §4 C11")
 
+CLAIMED["C12"] = dict(
+   text="Proof-level kernel of the counter deltas: every place that changes what is registered on a disk reports the change upwards as a delta object, and guard "
+        "obligations checked at those calls (on the object handed over) prove that the delta equals the change of the recomputed counts - Disk.doAddOrUpdateVolume "
+        "(one more volume exactly when the id was not registered, the remote flag change as +1 / -1 / nothing, one more active volume for a new writable one, nothing "
+        "else, no report for an unchanged volume; map size and stored info updated), Disk.AddOrUpdateEcShard / DeleteEcShard (the change of the number of shard ids "
+        "registered for the volume), DataNode.DeltaUpdateVolumes (a reported deletion counts only for a registered volume), DataNode.AdjustMaxVolumeCounts (new minus "
+        "current maximum, in a delta that holds exactly that disk type); DiskUsageCounts.addDiskUsageCounts adds field-wise, FreeSpace equals the free slot formula, "
+        "DiskUsages.getOrCreateDisk returns the one entry of the map for the type.",
+   note="The propagation NodeImpl.UpAdjustDiskUsageDelta recurses through the node interface and is abstract (assumed: adds the delta to the node and all ancestors), so "
+        "'counts equal the recomputed counts on every level' is the sum of the proved deltas, not proved as a tree invariant; shard bit sets are abstract (popcnt / or / "
+        "and-not); UpdateVolumes / UpdateEcShards full-heartbeat diffing, unlink/relink of servers and the active-volume count on read-only flips are not decided. "
+        "Two defects repaired (double counting of max volume counts, deletions of unregistered volumes). " + TRUST,
+   design="DESIGN.md §4 C12")
+
 NA = {
  "C03":"crash-point property over byte-level truncation of two persistent files; no per-function contract within reach decides it (DESIGN §4 C03)",
  "C10":"needs inductive tree predicates and cardinality reasoning over interface-typed nodes in pointer maps with randomised picking (DESIGN §4 C10)",
